@@ -9,6 +9,8 @@ CONSTANTS
   MixedTerm = TRUE
   Finding1 = FALSE
   Finding2 = TRUE
+  Finding3 = TRUE
+  Finding4 = TRUE
 INVARIANT TypeOK
 INVARIANT NothingBeforeTheEnd
 INVARIANT RejectedStoresNothing
